@@ -4,6 +4,7 @@
 # whether some input gives different results (a panic is a result).  Differences are replayed on the natively
 # built debug and release drivers.
 import time
+import os
 import z3
 from .common import *
 from .trees import *
@@ -128,11 +129,13 @@ def run(ctx, rep, tier):
     samples = []
     t0 = time.process_time()
     budget = 700 if tier == "quick" else 6000
-    fams = list(families(tier, ("digits", "octal", "words"))) + list(families(tier, ("any",)))
+    fams = list(families(tier, ("digits", "octal", "words"))) + list(families(tier, ("any", "strarg")))
+    if os.environ.get("VERIF_FAMILY_ONLY"):
+        fams = [f for f in fams if f[0].startswith(os.environ["VERIF_FAMILY_ONLY"])]
     if tier == "thorough":
         fams += list(families(tier, ("kwarg",)))
     n = 0
-    quick_names = {n_ for n_, _, _ in list(families("quick", ("digits", "octal", "words"))) + list(families("quick", ("any",)))}
+    quick_names = {n_ for n_, _, _ in list(families("quick", ("digits", "octal", "words"))) + list(families("quick", ("any", "strarg")))}
     not_decided = []
     # backslash + 8 or more octal digits (three escapes whose values each fork the escaping of the emitted text): 8 digits cost 19 min,
     # 9 did not finish in 50 min in the two-profile comparison (measured); C03 covers them for panics in both profiles
